@@ -48,6 +48,23 @@ func genProgram(t *rapid.T, nkeys, maxOps int) []COp {
 }
 
 func genCCase(t *rapid.T, backend string) CCase {
+	c := genCCase0(t, backend)
+	if backend == "inmem" && rapid.IntRange(0, 2).Draw(t, "pastWrites") == 0 {
+		// some writes carry an expiry that has already passed: they leave the key absent (in-memory only: Redis keeps such a
+		// record for its minimum TTL)
+		for ti := range c.Programs {
+			for oi := range c.Programs[ti] {
+				op := &c.Programs[ti][oi]
+				if (op.K == "put" || op.K == "create" || op.K == "cas" || (op.K == "putmany" && op.Exps == nil)) && rapid.IntRange(0, 3).Draw(t, "past") == 0 {
+					op.Past, op.Exp = true, false
+				}
+			}
+		}
+	}
+	return c
+}
+
+func genCCase0(t *rapid.T, backend string) CCase {
 	c := CCase{Backend: backend}
 	shape := rapid.SampledFrom([]string{"mixed", "mixed", "mixed", "creators", "cas_race"}).Draw(t, "shape")
 	maxT := vstat.Pick(6, 8)
